@@ -82,6 +82,7 @@ func AnalyseParser(c *core.Ctx) *Parser {
 	if fn == nil {
 		return nil
 	}
+	curProg = c.Program
 	p := &Parser{Fn: fn, Info: fn.Pkg.TypesInfo, G: cfgq.Of(c.Program, fn), c: c}
 	p.Fl = NewFlow(p.G)
 	body := fn.Decl.Body
@@ -177,7 +178,7 @@ type Sender struct {
 	Range    *ast.RangeStmt
 	RangePt  cfgq.Point // evaluation of the ranged expression
 	ItemVar  types.Object
-	Data     []*ast.CallExpr // Conn.Send calls in the range body
+	Data     []*SendSite // Conn.Send calls (direct or through a forwarding wrapper) in the range body
 	Conn     types.Object
 
 	Select   *ast.SelectStmt
@@ -211,12 +212,182 @@ func ConnMethod(info *types.Info, call *ast.CallExpr, name string) (ast.Expr, bo
 	return sel.X, true
 }
 
+// SendSite is a normalised conn.Send: a direct call of the redigo Conn.Send
+// method, or a call of a module helper that is a pure forwarding wrapper
+// `func (..) w(c redigo.Conn, cmd string, args ...interface{})` around exactly
+// one c.Send(cmd, args...). Args has the layout of the direct call: the
+// command name first, then its arguments.
+type SendSite struct {
+	Call     *ast.CallExpr // the call in the analysed body
+	Conn     ast.Expr
+	Args     []ast.Expr
+	Ellipsis bool        // the last element of Args is spread (x...)
+	Fatal    bool        // the wrapper itself ends the goroutine when Send fails (no error comes back)
+	Wrapper  *types.Func // nil for a direct call
+}
+
+// Pos is the position of the call.
+func (s *SendSite) Pos() token.Pos { return s.Call.Pos() }
+
+// curProg gives the helpers below access to the declarations of module
+// functions; it is set by AnalyseSender / AnalyseParser.
+var curProg *core.Program
+
+// SetProgram lets callers outside this package use SendOf / ConnCmd (wrapper
+// recognition needs the declarations of module functions).
+func SetProgram(p *core.Program) { curProg = p }
+
+type wrapInfo struct {
+	conn, cmd, args int // parameter positions
+	fatal           bool
+}
+
+var wrapMemo = map[*types.Func]*wrapInfo{}
+
+// sendWrapper recognises a pure forwarding wrapper around Conn.Send.
+func sendWrapper(f *types.Func) *wrapInfo {
+	if f == nil || curProg == nil || f.Pkg() == nil || !strings.HasPrefix(f.Pkg().Path(), core.Module) {
+		return nil
+	}
+	if w, ok := wrapMemo[f]; ok {
+		return w
+	}
+	wrapMemo[f] = nil
+	fn := curProg.FnOf(f)
+	if fn == nil || fn.Decl.Body == nil {
+		return nil
+	}
+	info := fn.Pkg.TypesInfo
+	var params []types.Object
+	for _, fl := range fn.Decl.Type.Params.List {
+		for _, nm := range fl.Names {
+			params = append(params, info.Defs[nm])
+		}
+	}
+	idx := func(e ast.Expr) int {
+		for i, p := range params {
+			if IsObj(info, p)(e) {
+				return i
+			}
+		}
+		return -1
+	}
+	sig := f.Type().(*types.Signature)
+	if !sig.Variadic() || len(params) != sig.Params().Len() {
+		return nil
+	}
+	var send *ast.CallExpr
+	n := 0
+	core.InspectAll(fn.Decl.Body, func(m ast.Node) bool {
+		if call, ok := m.(*ast.CallExpr); ok {
+			for _, name := range []string{"Send", "Do", "Flush", "Receive", "Close"} {
+				if _, ok := ConnMethod(info, call, name); ok {
+					n++
+					if name == "Send" {
+						send = call
+					}
+				}
+			}
+		}
+		return true
+	})
+	if n != 1 || send == nil || len(send.Args) != 2 || !send.Ellipsis.IsValid() {
+		return nil
+	}
+	recv, _ := ConnMethod(info, send, "Send")
+	w := &wrapInfo{conn: idx(recv), cmd: idx(send.Args[0]), args: idx(send.Args[1])}
+	if w.conn < 0 || w.cmd < 0 || w.args != len(params)-1 {
+		return nil
+	}
+	// the parameters are forwarded unchanged
+	for _, i := range []int{w.conn, w.cmd, w.args} {
+		written := false
+		core.InspectAll(fn.Decl.Body, func(m ast.Node) bool {
+			switch x := m.(type) {
+			case *ast.AssignStmt:
+				for _, l := range x.Lhs {
+					if IsObj(info, params[i])(l) {
+						written = true
+					}
+					if ix, ok := ast.Unparen(l).(*ast.IndexExpr); ok && IsObj(info, params[i])(ix.X) {
+						written = true
+					}
+				}
+			case *ast.UnaryExpr:
+				if x.Op == token.AND && IsObj(info, params[i])(x.X) {
+					written = true
+				}
+			}
+			return true
+		})
+		if written {
+			return nil
+		}
+	}
+	// error handling: either the error is the wrapper's result, or every path
+	// on which it is non-nil ends in a no-return call
+	g := cfgq.Of(curProg, fn)
+	fl := NewFlow(g)
+	sp, ok := g.Find(send)
+	if !ok {
+		return nil
+	}
+	returnsErr := sig.Results().Len() == 1 && cfgq.IsErrorType(sig.Results().At(0).Type())
+	switch {
+	case returnsErr:
+		// `return c.Send(...)` or `err := c.Send(..); ...; return err`: the caller judges the error
+		okRet := false
+		if ret, isRet := sp.Node().(*ast.ReturnStmt); isRet && len(ret.Results) == 1 && ast.Unparen(ret.Results[0]) == ast.Expr(send) {
+			okRet = true
+		}
+		if !okRet {
+			return nil
+		}
+	case sig.Results().Len() == 0:
+		as, isAs := sp.Node().(*ast.AssignStmt)
+		if !isAs || len(as.Lhs) != 1 {
+			return nil
+		}
+		ev := core.ObjOf(info, as.Lhs[0])
+		isNil := func(ft cfgq.Fact) bool {
+			eq, ok := EqFact(ft, IsObj(info, ev), func(x ast.Expr) bool { return core.IsNil(info, x) })
+			return ok && eq
+		}
+		if ev == nil || g.Path(cfgq.Query{From: sp, After: true, AvoidEdge: fl.Edge(isNil), TargetExit: cfgq.NormalExit}) != nil {
+			return nil
+		}
+		w.fatal = true
+	default:
+		return nil
+	}
+	wrapMemo[f] = w
+	return w
+}
+
+// SendOf normalises a call that sends one command on a connection.
+func SendOf(info *types.Info, call *ast.CallExpr) *SendSite {
+	if x, ok := ConnMethod(info, call, "Send"); ok {
+		return &SendSite{Call: call, Conn: x, Args: call.Args, Ellipsis: call.Ellipsis.IsValid()}
+	}
+	f := core.CalleeFunc(info, call)
+	w := sendWrapper(f)
+	if w == nil || len(call.Args) <= w.cmd || len(call.Args) <= w.conn {
+		return nil
+	}
+	s := &SendSite{Call: call, Conn: call.Args[w.conn], Fatal: w.fatal, Wrapper: f, Ellipsis: call.Ellipsis.IsValid()}
+	s.Args = append(s.Args, call.Args[w.cmd])
+	if len(call.Args) > w.args {
+		s.Args = append(s.Args, call.Args[w.args:]...)
+	}
+	return s
+}
+
 // ConnCmd: node executes conn.Send(<const name>, ...) with the given command name (case-insensitive).
-func ConnCmd(info *types.Info, n ast.Node, name string) *ast.CallExpr {
+func ConnCmd(info *types.Info, n ast.Node, name string) *SendSite {
 	for _, call := range cfgq.ExecCalls(n) {
-		if _, ok := ConnMethod(info, call, "Send"); ok && len(call.Args) > 0 {
-			if v, ok := core.StringConst(info, call.Args[0]); ok && strings.EqualFold(v, name) {
-				return call
+		if s := SendOf(info, call); s != nil && len(s.Args) > 0 {
+			if v, ok := core.StringConst(info, s.Args[0]); ok && strings.EqualFold(v, name) {
+				return s
 			}
 		}
 	}
@@ -258,6 +429,7 @@ func AnalyseSender(c *core.Ctx) *Sender {
 	if fn == nil {
 		return nil
 	}
+	curProg = c.Program
 	s := &Sender{Fn: fn, Info: fn.Pkg.TypesInfo, G: cfgq.Of(c.Program, fn)}
 	s.Fl = NewFlow(s.G)
 	info := s.Info
@@ -332,9 +504,9 @@ func AnalyseSender(c *core.Ctx) *Sender {
 	}
 	core.Inspect(s.Range.Body, func(m ast.Node) bool {
 		if call, ok := m.(*ast.CallExpr); ok {
-			if x, ok := ConnMethod(info, call, "Send"); ok {
-				s.Data = append(s.Data, call)
-				if id, ok := ast.Unparen(x).(*ast.Ident); ok {
+			if site := SendOf(info, call); site != nil {
+				s.Data = append(s.Data, site)
+				if id, ok := ast.Unparen(site.Conn).(*ast.Ident); ok {
 					s.Conn = core.ObjOf(info, id)
 				}
 			}
